@@ -2,7 +2,7 @@
 path explorer.  Values are kept in a canonical ring normal form while lentil's real code
 executes; every branch, rounding, comparison and obligation is decided by z3.
 """
-import builtins, math, cmath, time, itertools, sys
+import builtins, math, cmath, os, time, itertools, sys
 from fractions import Fraction
 import z3
 import numpy as rnp
@@ -374,6 +374,28 @@ TIMEOUT_MS = [20000]
 
 
 WITNESS = [None]
+CROSS = {'dir': os.environ.get('SYMX_CROSS_DIR'), 'every': int(os.environ.get('SYMX_CROSS_EVERY', '25')), 'n': 0, 'dumped': 0}
+
+
+def _cross_dump(solver, verdict):
+    """Second-solver audit (tools/crosscheck.py): every Nth decided query is written out as SMT-LIB2 with the verdict
+    z3 (Python API) gave, to be re-decided by the cvc5 and z3 binaries."""
+    if not CROSS['dir'] or verdict not in ('unsat', 'sat'):
+        return
+    CROSS['n'] += 1
+    if CROSS['n'] % CROSS['every']:
+        return
+    try:
+        os.makedirs(CROSS['dir'], exist_ok=True)
+        body = solver.to_smt2()
+        fn = os.path.join(CROSS['dir'], f'q{os.getpid()}_{CROSS["dumped"]:05d}_{verdict}.smt2')
+        with open(fn, 'w') as f:
+            f.write('(set-logic ALL)\n' + body)
+        CROSS['dumped'] += 1
+    except Exception:
+        pass
+
+
 _SKEL = {}
 _SKEL_VARS = {}
 
@@ -462,9 +484,13 @@ class Ctx:
             self.solver.push()
             self.solver.add(*extra)
             r = self.solver.check()
+            if CROSS['dir']:
+                _cross_dump(self.solver, str(r))
             self.solver.pop()
         else:
             r = self.solver.check()
+            if CROSS['dir']:
+                _cross_dump(self.solver, str(r))
         STATS.solver_s += time.time() - t0
         r = str(r)
         if r == 'unknown':
@@ -539,6 +565,8 @@ class Ctx:
             else:
                 r = str(self.solver.check())
         m = self.solver.model() if r == 'sat' else None
+        if CROSS['dir']:
+            _cross_dump(self.solver, r)
         self.solver.pop()
         STATS.solver_s += time.time() - t0
         return r, m
